@@ -8,6 +8,7 @@ from __future__ import annotations
 
 import functools
 import sys
+import threading
 import time
 
 from vlib import c16lib
@@ -31,6 +32,74 @@ def define_pipeline(spec, shard_index=0, num_shards=1, with_source=True):
   c16lib._OPS.setdefault('failing', op_failing)  # pylint: disable=protected-access
   return c16lib.define_pipeline(spec, shard_index=shard_index, num_shards=num_shards,
                                 with_source=with_source)
+
+
+# -- outputs that are slow to un-pickle on the driver (what a big batch is) --------
+
+_NO_LOAD_COST = set()   # thread idents that un-pickle without the simulated cost
+
+
+def _slow_load(v, delay):
+  if delay and threading.get_ident() not in _NO_LOAD_COST:
+    time.sleep(delay)      # real seconds: the un-pickling cost is CPU time of the driver
+  return v
+
+
+class SlowToLoad:
+  """A batch output that takes `delay` s to un-pickle; it un-pickles to the plain list."""
+
+  def __init__(self, v, delay):
+    self.v, self.delay = v, delay
+
+  def __reduce__(self):
+    return (_slow_load, (self.v, self.delay))
+
+
+def op_wrap_slow(xs, delay=0.0):
+  return SlowToLoad(list(xs), delay)
+
+
+def define_pipeline_slow_outputs(spec, shard_index=0, num_shards=1):
+  """c16lib.define_pipeline, every output batch costs spec['load_delay'] s to un-pickle."""
+  from ml_metrics._src.chainables import transform
+  p = c16lib.define_pipeline(spec, shard_index=shard_index, num_shards=num_shards)
+  return p.chain(transform.TreeTransform.new(name='wrap').apply(
+      fn=functools.partial(op_wrap_slow, delay=spec.get('load_delay', 0.0))))
+
+
+def reply_has_end_marker(pickled):
+  """True if a next-batch reply carries the end marker of its generator.
+
+  Looked at on the server side (handler thread), without the un-pickling cost.
+  """
+  from ml_metrics._src.chainables import lazy_fns
+  me = threading.get_ident()
+  _NO_LOAD_COST.add(me)
+  try:
+    elems = lazy_fns.pickler.loads(pickled)
+  except Exception:  # pylint: disable=broad-exception-caught
+    return False
+  finally:
+    _NO_LOAD_COST.discard(me)
+  return isinstance(elems, list) and any(isinstance(e, StopIteration) for e in elems)
+
+
+def tap_final_replies(server, on_final):
+  """Re-binds the next-batch handler of `server` on its transport server.
+
+  on_final() is called in the handler thread, before the reply leaves, for every
+  reply that carries the end marker (the last reply of a shard).  The handler
+  itself is the library's.
+  """
+  orig = server._next_batch  # pylint: disable=protected-access
+
+  def handler(batch_size=0):
+    r = orig(batch_size)
+    if reply_has_end_marker(r):
+      on_final()
+    return r
+
+  server._server.Bind('next_batch_from_generator', handler)  # pylint: disable=protected-access
 
 
 # -- run_pipeline_interleaved ---------------------------------------------------
